@@ -319,6 +319,7 @@ class Ctx:
         self.cov = {"samples": []}
         self.assumptions = []
         self.level = "proof"
+        self.report_as = prop          # an internal check (e.g. INT) reports under the property it serves
         os.makedirs(os.path.join(ROOT, "evidence"), exist_ok=True)
         os.makedirs(os.path.join(ROOT, "replays"), exist_ok=True)
         for f in os.listdir(os.path.join(ROOT, "replays")) if clean else []:   # stale replays of earlier runs
@@ -363,9 +364,9 @@ class Ctx:
         if any(not ni for _, ni in self.violations):
             self.violations = [(p_, ni) for p_, ni in self.violations if not ni]
         for w in self.known_lines:
-            print(f"KNOWN-FINDING: property={self.prop} {w}")
+            print(f"KNOWN-FINDING: property={self.report_as} {w}")
         for p, no_input in self.violations:
-            print(f"VIOLATION property={self.prop} replay={p}" + (" no-failing-input-found" if no_input else ""))
+            print(f"VIOLATION property={self.report_as} replay={p}" + (" no-failing-input-found" if no_input else ""))
         sys.stdout.flush()
         return 1 if self.violations else 0
 
